@@ -288,20 +288,43 @@ def return_assigns(body, success='ok'):
     return succ, fail
 
 
-def ok_payload_variant(body, sp):
-    """For a success point `_0 = Ok(move _x)`: the Option variant `_x` was built with in the same
-    block ('Some' / 'None'), else None."""
+def ok_payload(body, sp):
+    """For a success point that (through plain moves) is `Ok(x)`: the operand x, else None."""
     if sp['kind'] != 'stmt':
         return None
     rv = sp['rv']
-    if not (rv[0] == 'agg' and rv[2] == 'std::result::Result' and rv[3] == 0 and rv[5]):
+    for _ in range(4):
+        if rv[0] == 'agg' and rv[2] == 'std::result::Result' and rv[3] == 0 and rv[5]:
+            return rv[5][0]
+        if rv[0] == 'use' and rv[1][0] in ('copy', 'move') and not rv[1][1][1]:
+            ds = [d for d in body.defs(rv[1][1][0]) if d[1] != 't']
+            if len(ds) != 1:
+                return None
+            rv = ds[0][3]
+            continue
         return None
-    o = rv[5][0]
-    if o[0] not in ('copy', 'move') or o[1][1]:
+    return None
+
+
+def ok_payload_variant(body, sp):
+    """For a success point `_0 = Ok(move _x)` (possibly through a temporary): the Option variant
+    `_x` was built with ('Some' / 'None'), else None."""
+    o = ok_payload(body, sp)
+    if o is None or o[0] not in ('copy', 'move') or o[1][1]:
         return None
     for (bi, si, pl, drv) in body.defs(o[1][0]):
         if si != 't' and drv[0] == 'agg' and drv[2] == 'std::option::Option':
             return drv[4]
+    return None
+
+
+def option_payload(body, operand):
+    """Operand x of `Some(x)` building the local in `operand`."""
+    if operand is None or operand[0] not in ('copy', 'move'):
+        return None
+    for (bi, si, pl, drv) in body.defs(operand[1][0]):
+        if si != 't' and drv[0] == 'agg' and drv[2] == 'std::option::Option' and drv[5]:
+            return drv[5][0]
     return None
 
 
@@ -504,6 +527,13 @@ class MPT:
                 res.holds = ok
                 res.detail['mode'] = 'per-item'
                 return res
+        if ret_filter is not None:
+            pts = [sp for sp in return_assigns(body, success)[0] if ret_filter(body, sp)]
+            live = body.reach([0])
+            if not [sp for sp in pts if sp['bb'] in live]:
+                res.problems.append('%s: no reachable success return matches the return filter %s' % (
+                    lf.name, getattr(ret_filter, '__name__', '?')))
+                return res
         hits = success_reachable(body, removed, success, ret_filter=ret_filter)
         if hits:
             res.problems.append('%s: success return (bb%s) reachable without passing %s=%s' % (
@@ -627,6 +657,9 @@ def origins(body, start, through_calls=True, max_nodes=4000, call_filter=None):
         if 1 <= l <= body.argc:
             nm = body.locals[l][1] or ('arg%d' % l)
             out.add('param:' + '.'.join((nm,) + path))
+            # rename-proof spellings: by position and by type head
+            out.add('.'.join(('p#%d' % l,) + path))
+            out.add('.'.join(('pty:' + type_head(body.lty(l)),) + path))
             # parameters can still be reassigned, fall through to defs
         ds = body.defs(l)
         for (bi, si, pl, rv) in ds:
@@ -679,6 +712,8 @@ def origins(body, start, through_calls=True, max_nodes=4000, call_filter=None):
             elif k == 'agg':
                 if rv[1] in ('closure', 'coroutine'):
                     out.add('closure:%s' % rv[2])
+                elif rv[1] == 'adt':
+                    out.add('adt:%s::%s' % (rv[2], rv[4]))
                 ops = rv[5]
                 # field-sensitive when the wanted path starts with a field of this aggregate
                 sel = None
@@ -690,6 +725,67 @@ def origins(body, start, through_calls=True, max_nodes=4000, call_filter=None):
                     elif o[0] == 'const':
                         out.add('const:%s' % o[1])
     return out
+
+
+def fn_origins(fn, operand_or_local, through_calls=True, depth=0):
+    """origins() inside fn's body, with closure captures translated to the enclosing fn's origins:
+    'param:arg1.<i>.<rest>' of a closure becomes the origins of captured operand i in the parent
+    (with '.<rest>' appended to parameter origins)."""
+    body = fn.body
+    og = origins(body, operand_or_local, through_calls)
+    if fn.kind != 'closure' or fn.parent is None or depth > 4:
+        return og
+    env_name = body.locals[1][1] or 'arg1'
+    out = set()
+    cap_ops = None
+    for o in og:
+        if o.startswith('pty:{') or o.startswith('pty:Pin'):
+            continue   # closure / coroutine environment types (carry source positions)
+        if o == 'p#1' or o.startswith('p#1.'):
+            continue   # positional spelling of the environment: handled through the param: form
+        if fn.cor and (o == 'p#2' or o.startswith('p#2.') or o.startswith('param:_task_context')
+                       or o.startswith('pty:ResumeTy')):
+            continue   # the coroutine's resume argument
+        if o == 'param:' + env_name or o.startswith('param:' + env_name + '.'):
+            rest = o[len('param:' + env_name):].lstrip('.')
+            parts = rest.split('.') if rest else []
+            if not parts or not parts[0].isdigit():
+                continue
+            if cap_ops is None:
+                cap_ops = capture_operands(fn)
+            i = int(parts[0])
+            if cap_ops is None or i >= len(cap_ops):
+                out.add(o)
+                continue
+            sub = fn_origins(fn.parent, cap_ops[i], through_calls, depth + 1)
+            suffix = '.'.join(parts[1:])
+            for x in sub:
+                if x.startswith(('param:', 'p#', 'pty:')) and suffix:
+                    out.add(x + '.' + suffix)
+                else:
+                    out.add(x)
+        elif not fn.cor and re.match(r'^p#\d+', o):
+            out.add('clarg' + o[1:])   # the closure's own argument, not a parameter of the parent
+        else:
+            out.add(o)
+    return out
+
+
+def capture_operands(closure_fn):
+    """Operands captured by the closure, from the Aggregate(Closure) statement in its parent."""
+    pb = closure_fn.parent.body
+    for b in pb.blocks:
+        for (_, pl, rv) in b.stmts:
+            if rv[0] == 'agg' and rv[1] in ('closure', 'coroutine') and rv[2] == closure_fn.name:
+                return rv[5]
+    return None
+
+
+def type_head(t):
+    """Last path segment of a type, references and generics stripped: `&mithril::x::Foo<T>` -> Foo."""
+    t = strip_refs(t)
+    t = t.split('<', 1)[0]
+    return t.rsplit('::', 1)[-1]
 
 
 def fields_of(proj):
@@ -817,8 +913,8 @@ def find_guards(body, through_calls=True):
                     out.append(g)
                     break
     for g in out:
-        g.a_orig = origins(body, g.a, through_calls)
-        g.b_orig = origins(body, g.b, through_calls)
+        g.a_orig = fn_origins(body.fn, g.a, through_calls)
+        g.b_orig = fn_origins(body.fn, g.b, through_calls)
     return out
 
 
